@@ -151,17 +151,6 @@ Proof.
 Qed.
 
 (* the same three laws for every kind of operand *)
-Definition gval_equiv (a b : gval) : Prop :=
-  match a, b with
-  | GSize x, GSize y => size_equiv x y
-  | GPoint x, GPoint y => point_equiv x y
-  | GStretch x, GStretch y => stretch_equiv x y
-  | GPadding x, GPadding y => padding_equiv x y
-  | GAlign x, GAlign y => alignment_equiv x y
-  | GLayout x, GLayout y => layout_equiv x y
-  | _, _ => False
-  end.
-
 Lemma gval_eqb_iff : forall a b, gval_eqb a b = true <-> gval_equiv a b.
 Proof.
   intros [] []; cbn [gval_eqb gval_equiv]; try (split; [discriminate|contradiction]).
@@ -243,6 +232,13 @@ Section HashCoherent.
     unfold layout_hash.
     rewrite (opt_hash_eq _ _ point_hash_eq _ _ H1), (opt_hash_eq _ _ stretch_hash_eq _ _ H2),
             (opt_hash_eq _ _ padding_hash_eq _ _ H3), (opt_hash_eq _ _ alignment_hash_eq _ _ H4). reflexivity.
+  Qed.
+  Lemma gval_hash_eq : forall a b, gval_eqb a b = true ->
+    gval_hash hq hu hh hv hnone hint a = gval_hash hq hu hh hv hnone hint b.
+  Proof.
+    intros [] []; cbn [gval_eqb gval_hash]; intros H; try discriminate;
+    [apply size_hash_eq|apply point_hash_eq|apply stretch_hash_eq|apply padding_hash_eq|apply alignment_hash_eq
+     |apply layout_hash_eq]; exact H.
   Qed.
 End HashCoherent.
 
